@@ -11,7 +11,7 @@ import pegdump
 HERE = os.path.dirname(os.path.abspath(__file__))
 FUEL = 120
 
-IMPORTS = ("From TxV Require Import Core.Base Core.Show Model.PegSyntax Model.Peg Model.PegShow Model.KwDefs Gen.SrcKw Model.Kw.\n"
+IMPORTS = ("From TxV Require Import Core.Base Core.Show Model.PegSyntax Model.Peg Model.PegShow Model.Build Model.KwDefs Gen.SrcKw Model.Kw.\n"
            "Open Scope string_scope.\n"
            "Definition show_spec (s : term_spec) : string :=\n"
            "  match s with\n"
@@ -175,3 +175,29 @@ def eval_cases(tag, per_case, shard=60, defs=""):
             continue
         out.update(zip(keys, xs))
     return out, errs
+
+
+# ---------------------------------------------------------------- model level (Model/Build.v, read only)
+def build_part(g, c, m, run, res, text):
+    """Coq expression: parse + model construction on the dumped tables (show_build of the C01/C06 model)"""
+    import mmdump
+    return "show_build %s %s %s %s %s %s %s %d %s" % (
+        g, c, m, pegdump.coq_table(run["table"]), mmdump.coq_gtable(run.get("gtable", [])),
+        "true" if res["auto"] else "false", "true" if res["use_grp"] else "false", FUEL, pegdump.coq_str(text))
+
+
+def shape_rel(a, b, exact):
+    """two model values in the C01/C06 dump shape: identical, or (not exact) identical up to the letter case of strings"""
+    if exact:
+        return a == b
+    if type(a) is not type(b):
+        return False
+    if isinstance(a, dict):
+        if set(a) != set(b):
+            return False
+        if "s" in a and len(a) == 1:
+            return a["s"].lower() == b["s"].lower()
+        return all(shape_rel(a[k], b[k], exact) for k in a)
+    if isinstance(a, list):
+        return len(a) == len(b) and all(shape_rel(x, y, exact) for x, y in zip(a, b))
+    return a == b
